@@ -2,8 +2,10 @@ mod config;
 mod gen;
 mod net;
 mod oracle;
+#[cfg(feature = "wrappers")]
 mod psched;
 mod rng;
+#[cfg(feature = "wrappers")]
 mod sched;
 mod seq;
 mod stress;
@@ -53,6 +55,7 @@ fn main() {
             r.nontrivial = st.distinct.len() as u64;
             r.write(&out, &cmd, &profile, seed);
         }
+        #[cfg(feature = "wrappers")]
         "policy" => {
             let mut r = seq::Runner::new();
             r.trace = trace();
@@ -130,6 +133,7 @@ fn main() {
             r.extra = format!(",\"cases\":{},\"endings\":{{{}}}", scripts.len(), e.join(","));
             r.write(&out, "server", &profile, seed);
         }
+        #[cfg(feature = "wrappers")]
         "sched" => {
             let per_case: usize = get("per_case", "60").parse().unwrap();
             let (ops, outs, viols, st) = if m.get("ops").map(|f| std::fs::read_to_string(f).map(|t| t.contains("pcnew ")).unwrap_or(false)).unwrap_or(false) {
@@ -188,6 +192,11 @@ fn main() {
             let kn: Vec<String> = st.nonlinearizable_known.iter().map(|(k, v)| format!("\"{}\":{}", k, v)).collect();
             let samples: Vec<String> = st.samples.iter().map(|s| format!("\"{}\"", s.replace('"', "'"))).collect();
             std::fs::write(format!("{}/stats.json", out), format!("{{\"suite\":\"sched\",\"profile\":\"{}\",\"seed\":{},\"programs\":{},\"cases\":{},\"lines\":{},\"distinct_nontrivial\":{},\"nonlinearizable_by_window\":{{{}}},\"oracle_violations\":{},\"stream_samples\":[{}]}}\n", profile, seed, st.cases, st.schedules, ops.len(), st.distinct_outcomes.len(), kn.join(","), viols.len(), samples.join(","))).unwrap();
+        }
+        #[cfg(not(feature = "wrappers"))]
+        "sched" | "policy" => {
+            eprintln!("suite not available: the harness was built without the Cache wrappers");
+            std::process::exit(3);
         }
         "stress" => {
             // watchdog: the whole suite must finish; a hang leaves the trace for the check script
